@@ -265,10 +265,12 @@ func (w *Whisper) FetchFromArchive(arhiveID int, from, until, now Timestamp) (*T
 
 func (w *Whisper) findBestArchive(t, now Timestamp) int {
 	var archiveID int
-	diff := now.Sub(t)
+	// NOTE: now.Sub(t) would wrap around to a negative Duration
+	// when now and t are 2^31 or more seconds apart (e.g. t == 0).
+	diff := int64(now) - int64(t)
 	for i, retention := range w.ArchiveInfoList() {
 		archiveID = i
-		if retention.MaxRetention() >= diff {
+		if int64(retention.MaxRetention()) >= diff {
 			break
 		}
 	}
